@@ -106,6 +106,13 @@ func init() {
 		}
 		return SV{V: TV{e.x.w.SortOf(t), e.x.wireDecode(e.st, "be", t, e.term(args[0]))}, T: t}
 	}
+	specFuncs["decGUID"] = func(e *specEnv, args []SV) SV { // the EFI_GUID in its in-structure (little-endian) layout
+		t := e.x.namedType(modPath+"/efi/util", "EFIGUID")
+		if t == nil {
+			return e.fail("EFIGUID type not loaded")
+		}
+		return SV{V: TV{e.x.w.SortOf(t), e.x.wireDecode(e.st, "le", t, e.term(args[0]))}, T: t}
+	}
 	specFuncs["encSig"] = func(e *specEnv, args []SV) SV {
 		return SV{V: TV{SSeqI, app("g_encSig", e.term(args[0]))}, T: byteSlice}
 	}
